@@ -162,6 +162,12 @@ func c05BulkBody(x *engine.X) {
 		x.Fail("post/Pending-inexact", "Pending()=%d after %d Posts and before any poll", got, k)
 	}
 	calls := 0
+	postedSoFar := func() int { // Posts that have returned
+		if len(order) > lateFrom {
+			return k + m
+		}
+		return k
+	}
 	for ; calls < k+m+8 && len(order) < k+m; calls++ {
 		switch pollKind {
 		case 0:
@@ -172,6 +178,13 @@ func c05BulkBody(x *engine.X) {
 			ioc.RunOne()
 		case 3:
 			ioc.Poll()
+		}
+		// between polls no batch is running: what has been posted and has not run is exactly what is queued
+		if got, want := ioc.Posted(), postedSoFar()-len(order); got != want && !x.Failed() {
+			x.Fail("post/Posted-inexact", "after poll call %d returned: Posted()=%d, but %d handlers were posted and %d have run (Pending()=%d)", calls+1, got, postedSoFar(), len(order), ioc.Pending())
+		}
+		if got, want := ioc.Pending(), int64(postedSoFar()-len(order)); got != want && !x.Failed() {
+			x.Fail("post/Pending-inexact", "after poll call %d returned: Pending()=%d, but %d handlers were posted and %d have run", calls+1, got, postedSoFar(), len(order))
 		}
 	}
 	x.Note("k=%d poll=%d handler %d posts %d more: %d poll calls, %d handlers ran", k, pollKind, lateFrom, m, calls, len(order))
